@@ -271,6 +271,9 @@ pub fn install_panic_hook() {
             "<non-string panic>".to_string()
         };
         let loc = info.location().map_or_else(String::new, |l| format!("{}:{}", l.file(), l.line()));
+        // one short line on stderr: if the panic cannot unwind the process aborts and this is
+        // all the orchestrator gets to see
+        eprintln!("panicked at {loc}: {}", msg.chars().take(300).collect::<String>());
         PANIC_INFO.with(|p| *p.borrow_mut() = Some((msg, loc)));
     }));
 }
